@@ -95,7 +95,23 @@ fuzz_shard() { # <target> <seconds>
   add_result "{\"tool\":\"libfuzzer+asan\",\"target\":\"$target\",\"executions\":${execs:-0},\"coverage_edges\":${cov:-0},\"artifacts\":$crashes,\"seconds\":$secs,\"wall_s\":$dt}"
 }
 
+sockets_shard() { # real resolved binary against fake name servers on loopback (port trap on :53)
+  local t0=$(date +%s)
+  ( cd /verif/harness && cargo build --release --bin e_sockets ) >"$OUT/sockets-build.log" 2>&1
+  /verif/target/harness/release/e_sockets "$SEED" "${VERIF_SOCKET_UNIVERSES:-24}" 14 >"$OUT/sockets.log" 2>&1
+  local rc=$?
+  local line=$(grep "^SOCKETS-RESULT " "$OUT/sockets.log" | tail -1 | sed 's/^SOCKETS-RESULT //')
+  [ -z "$line" ] && line='{"tool":"real sockets","status":"unavailable: no result line"}'
+  if [ $rc -eq 1 ]; then
+    echo "VIOLATION property=$ID replay=$OUT/sockets.log"
+    echo "  signature: $ID:real-sockets:traffic-on-port-53-or-wrong-answer"
+    FAIL=1
+  fi
+  add_result "$line"
+}
+
 case "$ID" in
+  C18) sockets_shard ;;
   C03) miri_shard miri_wire 16 40; fuzz_shard wire_diff "${VERIF_FUZZ_SECS:-300}" ;;
   C04) miri_shard miri_wire 8 40; fuzz_shard wire_diff "${VERIF_FUZZ_SECS:-180}" ;;
   C05) miri_shard miri_cache 8 12 2 60 ;;
